@@ -45,6 +45,21 @@ CHECKS["C16"] = dict(
     technique="TLA+ spec (FindProps!ClosestOK) evaluated by TLC as oracle; cases replayed into FileSet.find_closest; recorded "
               "traces validated by TLC (FindTrace)")
 
+CHECKS["C02"] = dict(
+    text="NameProps.tla (on Calendar.tla: leap rule, day-of-year both ways, carries) defines the number every temporal "
+         "placeholder must carry, the start and end get_info must report (year2 threshold, full / partial / absent end "
+         "fields, roll-over by the next coarser unit, time_coverage) and TLC checks the round-trip and 'least end >= start' "
+         "theorems over a boundary catalogue; every enumerated (template, start, end) is replayed through get_filename, "
+         "parse_filename and get_info (also info_via='both') under four concrete spellings. NameMatch.tla decides which "
+         "single-piece corruptions of valid names must be rejected with ValueError.",
+    ref="DESIGN.md §5 C02",
+    note="Trusted: TLC, Calendar/NameProps/NameMatch, the harness' zero padding and template assembly. User regexes are "
+         "limited to default/[A-Z]+/value list; regex metacharacters other than '.' and '*' in templates are by design "
+         "regular expressions and are not treated as literals; end templates with end_day but no end_month are outside the "
+         "property's wording.",
+    technique="TLA+ spec (Calendar/NameProps/NameMatch) model-checked with TLC; TLC-generated cases replayed into "
+              "FileSet.get_filename/parse_filename/get_info")
+
 NOT_APPLICABLE = {
     "C07": "Every clause concerns floating-point accuracy of sin/cos/arctan2/sqrt compositions or convergence of a "
            "fixed-point iteration over a continuous domain; TLA+/TLC has no reals or transcendental functions and there "
